@@ -723,13 +723,26 @@ func toDecimal64(val interface{}) (float64, error) {
 	case int64:
 		return int64ToFloat(x)
 	case float32:
-		return float64(x), nil
+		return finiteDecimal(float64(x))
 	case float64:
-		return x, nil
+		return finiteDecimal(x)
 	case string:
-		return strconv.ParseFloat(x, 64)
+		f, err := strconv.ParseFloat(x, 64)
+		if err != nil {
+			return 0, err
+		}
+		return finiteDecimal(f)
 	}
 	return 0, fmt.Errorf("cannot coerse '%T' to float64", val)
+}
+
+// a decimal64 is a number: "NaN" and "Inf" parse as floats but are no values of the type
+// (they pass every range check and cannot be written as JSON)
+func finiteDecimal(f float64) (float64, error) {
+	if math.IsNaN(f) || math.IsInf(f, 0) {
+		return 0, fmt.Errorf("%v is not a decimal64 value", f)
+	}
+	return f, nil
 }
 
 // 64-bit integers beyond 2^53 convert only when float64 holds them exactly
